@@ -114,7 +114,7 @@ def run_one(m, prop, slot, repo="/repo"):
         shutil.rmtree(d, ignore_errors=True)
 
 
-def run_all(prop=None, ids=None, jobs=max(4, min(14, (os.cpu_count() or 8) - 2)), repo="/repo"):
+def run_all(prop=None, ids=None, jobs=max(4, min(14, (os.cpu_count() or 8) - 2)), repo="/repo", stream=False):
     ms = load(prop)
     tasks = []
     for m in ms:
@@ -127,7 +127,7 @@ def run_all(prop=None, ids=None, jobs=max(4, min(14, (os.cpu_count() or 8) - 2))
     import queue
     slots = queue.Queue()
     for i in range(jobs):
-        slots.put("mut%d" % i)
+        slots.put("%s%d" % (os.environ.get("SELFTEST_SLOT_PREFIX", "mut"), i))
 
     def job(m, p):
         sl = slots.get()
@@ -138,7 +138,10 @@ def run_all(prop=None, ids=None, jobs=max(4, min(14, (os.cpu_count() or 8) - 2))
     with ThreadPoolExecutor(max_workers=jobs) as ex:
         futs = [ex.submit(job, m, p) for (m, p) in tasks]
         for f in futs:
-            results.append(f.result())
+            r = f.result()
+            results.append(r)
+            if stream:
+                print("%-44s %-4s %-22s %s" % (r["id"], r["prop"], r["status"], ",".join(r.get("keys", []))[:150]), flush=True)
     return results
 
 
@@ -151,9 +154,10 @@ if __name__ == "__main__":
         args = args[1:]
     if args:
         ids = set(args)
-    res = run_all(prop, ids)
+    res = run_all(prop, ids, stream=True, **({"jobs": int(os.environ["SELFTEST_JOBS"])} if os.environ.get("SELFTEST_JOBS") else {}))
     bad = 0
-    for r in res:
+    print("---- failures ----", flush=True)
+    for r in [x for x in res if x["status"] not in ("ok", "caught")]:
         print("%-44s %-4s %-22s %s" % (r["id"], r["prop"], r["status"], ",".join(r.get("keys", []))[:150]))
         if r["status"] in ("MISSED", "FALSE-ALARM", "does-not-compile", "caught-other-key"):
             bad += 1
